@@ -46,8 +46,8 @@ Ints(h) ==
 
 Cases ==
   {[h |-> h, op |-> "hash", bytes |-> MkBytes(k, n)] : h \in Hashers, k \in Kinds, n \in ByteLens}
-  \cup {[h |-> h, op |-> "hash_elements", deg |-> d, elems |-> MkElems(h, k, n, 0)]
-         : h \in Hashers, k \in EKinds, d \in 1..3, n \in {m \in 0..MaxElems : m % d = 0}}
+  \cup UNION {{[h |-> h, op |-> "hash_elements", deg |-> d, elems |-> MkElems(h, k, n, 0)]
+                : h \in Hashers, k \in EKinds, n \in {m \in 0..MaxElems : m % d = 0}} : d \in 1..3}
   \cup {[h |-> h, op |-> "merge", ds |-> <<MkDigest(h, k1, 1), MkDigest(h, k2, 2)>>]
          : h \in Hashers, k1 \in EKinds, k2 \in EKinds}
   \cup {[h |-> h, op |-> "merge_many", ds |-> MkDigests(h, k, n)]
